@@ -265,6 +265,8 @@ func dConv(g *G) {
 	// Int64: S, boundary coefficients x 10^k, trailing-zero and positive-exponent forms
 	for _, v := range vs {
 		g.emit(mkInt64(v), "int64/S")
+		v.Hp = true
+		g.emit(mkInt64(v), "int64/S-heap")
 	}
 	maxI := new(big.Int).SetInt64(math.MaxInt64)
 	for _, delta := range []int64{-2, -1, 0, 1, 2, 3} {
@@ -299,6 +301,7 @@ func dConv(g *G) {
 		if g.R.Intn(30) == 0 {
 			x = specialDecs[g.R.Intn(len(specialDecs))]
 		}
+		x.Hp = g.R.Intn(3) == 0
 		g.emit(mkInt64(x), "int64/seeded")
 	}
 	// SetInt64 / New / NewWithBigInt / SetFinite / Scan(int64)
